@@ -635,6 +635,87 @@ func extractAll() {
 		}
 		addBool("eioCloseSetsFlagFirst", flagPos != token.NoPos && closeAllPos != token.NoPos && flagPos < closeAllPos, rel)
 	}
+	// ---- the Engine.IO sockets hand packets to the current transport while holding transportMu (read lock), so that the swap of an
+	// upgrade (write lock) cannot fall between choosing the transport and enqueueing; the client socket's flush of its offline
+	// buffer hands the backlog to the manager before sendBufferMu is released
+	{
+		underRLock := func(rel, recv, fn, callee string) bool {
+			fd := findFunc(load(rel), recv, fn)
+			if fd == nil {
+				return false
+			}
+			var lockPos, sendPos, unlockPos token.Pos
+			deferred := false
+			ast.Inspect(fd, func(x ast.Node) bool {
+				switch n := x.(type) {
+				case *ast.DeferStmt:
+					if se, ok := n.Call.Fun.(*ast.SelectorExpr); ok && (se.Sel.Name == "RUnlock" || se.Sel.Name == "Unlock") {
+						deferred = true
+					}
+					return false
+				case *ast.CallExpr:
+					if se, ok := n.Fun.(*ast.SelectorExpr); ok {
+						switch se.Sel.Name {
+						case "RLock", "Lock":
+							if lockPos == token.NoPos {
+								lockPos = n.Pos()
+							}
+						case "RUnlock", "Unlock":
+							if unlockPos == token.NoPos {
+								unlockPos = n.Pos()
+							}
+						case callee:
+							if sendPos == token.NoPos {
+								sendPos = n.Pos()
+							}
+						}
+					}
+				}
+				return true
+			})
+			if lockPos == token.NoPos || sendPos == token.NoPos || sendPos < lockPos {
+				return false
+			}
+			return deferred || unlockPos > sendPos
+		}
+		addBool("eioSendUnderTransportLock", underRLock("engine.io/server_socket.go", "serverSocket", "Send", "Send") &&
+			underRLock("engine.io/client_socket.go", "clientSocket", "Send", "writeWritablePackets"), "engine.io/server_socket.go")
+		// emitBuffered: the flush (manager.packet) happens after sendBufferMu.Lock with the unlock deferred or later
+		fd := findFunc(load("client_socket.go"), "clientSocket", "emitBuffered")
+		ok := false
+		if fd != nil {
+			var lockPos, packetPos, unlockPos token.Pos
+			deferred := false
+			ast.Inspect(fd, func(x ast.Node) bool {
+				switch n := x.(type) {
+				case *ast.DeferStmt:
+					if se, ok := n.Call.Fun.(*ast.SelectorExpr); ok && se.Sel.Name == "Unlock" {
+						if inner, ok := se.X.(*ast.SelectorExpr); ok && inner.Sel.Name == "sendBufferMu" {
+							deferred = true
+						}
+					}
+					return false
+				case *ast.CallExpr:
+					if se, ok := n.Fun.(*ast.SelectorExpr); ok {
+						if inner, ok := se.X.(*ast.SelectorExpr); ok && inner.Sel.Name == "sendBufferMu" {
+							if se.Sel.Name == "Lock" && lockPos == token.NoPos {
+								lockPos = n.Pos()
+							}
+							if se.Sel.Name == "Unlock" && unlockPos == token.NoPos {
+								unlockPos = n.Pos()
+							}
+						}
+						if se.Sel.Name == "packet" && packetPos == token.NoPos {
+							packetPos = n.Pos()
+						}
+					}
+				}
+				return true
+			})
+			ok = lockPos != token.NoPos && packetPos > lockPos && (deferred && (unlockPos == token.NoPos || unlockPos > packetPos) || unlockPos > packetPos)
+		}
+		addBool("sioClientFlushUnderLock", ok, "client_socket.go")
+	}
 	// ---- Socket.IO packet types
 	{
 		p := "parser/packet.go"
